@@ -1,5 +1,6 @@
 import TantivyModel.Driver.Proto
 import TantivyModel.Model.Lock
+import TantivyModel.Model.LockFile
 /-!
 Line protocol of the writer-lock model (C18).
 
@@ -20,7 +21,10 @@ inductive DEv where
 def dstep (s : St) : DEv → St × Out
   | .small e => step s e
   | .create t a n => create s t a n
-  | .rollback w n => rollback s w n
+  | .rollback w n =>
+    -- a failing rollback: which event it is depends on the extracted order inside `rollback`
+    if !n && Gen.ROLLBACK_TAKES_GUARD_AFTER_NEW == 1 then step s (.rollbackFailedEarly w)
+    else rollback s w n
 
 def showOut : Out → String
   | .ok w => "ok" ++ toString w
@@ -64,7 +68,26 @@ def showState (s : St) : String :=
     ";".intercalate (s.writers.map (fun x =>
       toString x.id ++ ":" ++ showBool x.killed ++ ":" ++ showBool (s.guards.contains (.writer x.id)))))
 
+/-- lock-file protocol (`Model/LockFile.lean`, shape of the code as extracted): `o<t>` open_write ·
+`g<t>` guard built · `x` a guard dropped. Response `<out>,…|<file 0/1>|<holders>` -/
+def parseLF (tok : String) : Option LockFile.Ev :=
+  match tok.toList with
+  | ['x'] => some .dropGuard
+  | 'o' :: rest => (String.ofList rest).toNat?.map .openWrite
+  | 'g' :: rest => (String.ofList rest).toNat?.map .mkGuard
+  | _ => none
+
+def showLF : LockFile.Out → String
+  | .acquired => "acquired" | .refused => "refused" | .done => "done" | .stuck => "stuck"
+
 def handle : List String → String
+  | ["lockfile", evs] =>
+    match (if evs == "-" then some [] else (evs.splitOn ",").mapM parseLF) with
+    | some es =>
+      let r := LockFile.run LockFile.codeShape LockFile.init es
+      (if r.2.isEmpty then "-" else ",".intercalate (r.2.map showLF)) ++ "|" ++ showBool r.1.file ++ "|" ++
+        toString (LockFile.holders r.1)
+    | none => "bad-op"
   | ["run", evs] =>
     let toks := if evs == "-" then [] else evs.splitOn ","
     match toks.mapM parseEv with
